@@ -70,6 +70,7 @@ def _ops():
     return [
         ("emit.class_", lambda S, T: _code(e.class_(S))),
         ("emit.class_call", lambda S, T: _code(e.class_(S, emit_call=True, class_name="K"))),
+        ("emit.class_docs", lambda S, T: _code(e.class_(S, emit_default_doc=True, class_name="D"))),
         ("emit.function", lambda S, T: _code(e.function(S, function_name="f", function_type="static"))),
         ("emit.function_docs", lambda S, T: _code(e.function(S, function_name="g", function_type="self", inline_types=False, emit_as_kwonlyargs=False, emit_default_doc=True))),
         # under the IR's own name and type, so that a carried body is re-emitted (get_internal_body matches on them)
@@ -98,7 +99,7 @@ def make_state(seed):
     with_ret = ch.chance("ret", 0.5)
     with_body = ch.chance("body", 0.6)
     if with_ret:
-        desc["returns"] = {"typ": "Tuple[int, int]", "doc": "the resulting pair", "default": {"code": "(0, 1)"}}
+        desc["returns"] = {"typ": "Tuple[int, int]", "doc": "the resulting pair" + (". Defaults to (0, 1)" if ch.chance("retdoc", 0.5) else ""), "default": {"code": "(0, 1)"}}
     else:
         desc["returns"] = None
     body = ["total = %s" % (desc["params"][0]["name"] if desc["params"] else "0"), "print(total)"] if with_body else None
@@ -323,7 +324,7 @@ def run_check(prop, tier):
         nviol += len(new) - max_report
         lines.append("  (%d further distinct violation signatures not minimised)" % (len(new) - max_report))
     wall = time.monotonic() - t0
-    nops = 17
+    nops = 18
     cov = {
         "evaluations": stats["sequences"],
         "distinct_nontrivial": len(kinds),
@@ -355,7 +356,7 @@ def run_check(prop, tier):
 
 
 def _alphabet_names():
-    return [(n, None) for n in ["emit.class_", "emit.class_call", "emit.function", "emit.function_docs", "emit.function_same", "emit.argparse_same", "emit.argparse", "emit.argparse_doc", "emit.docstring_rest",
+    return [(n, None) for n in ["emit.class_", "emit.class_call", "emit.class_docs", "emit.function", "emit.function_docs", "emit.function_same", "emit.argparse_same", "emit.argparse", "emit.argparse_doc", "emit.docstring_rest",
                                 "emit.docstring_numpydoc", "emit.docstring_google", "sync.composite", "parse.T", "parse.T_merge", "find_in_ast.T", "annotate_ancestry.T", "to_code.T"]]
 
 
